@@ -88,6 +88,14 @@ Theorem C12_lockset_collector : lockset_ok collector_accesses = true.
 Proof. vm_compute. reflexivity. Qed.
 Print Assumptions C12_lockset_collector.
 
+(* (7) every goroutine started below Start is counted by the wait group: a wg.Add precedes the go
+   statement in the same function and the literal defers wg.Done (regenerated from the source;
+   this is the model's assumption that wg counts exactly the live goroutines) *)
+Theorem C12_goroutines_counted :
+  forallb (fun g => snd (fst g) && snd g) collector_goroutines = true /\ 3 <= length collector_goroutines.
+Proof. vm_compute. split; [reflexivity | repeat constructor]. Qed.
+Print Assumptions C12_goroutines_counted.
+
 (* NOT PROVED - full statements kept visible:
    C12_progress : forall cfg sched, let s := t_run true sched (t_init cfg) in
        t_all_done s = false -> exists t, t_step true s t <> None          (no thread left blocked)
